@@ -43,6 +43,7 @@ def expected_entry(node, typed, tagged=False):
     if tagged and isinstance(e, dict):
         e["tag"] = "o" if isinstance(node.data, sergen.Obj) else "s"
         e["nest"] = dict(sergen.NEST)
+        e["opt"] = 0 if isinstance(node.data, sergen.Obj) else None
     return e
 
 
@@ -210,9 +211,28 @@ def run_writer(case, res):
                 tmp = tempfile.mkdtemp(prefix="vmon-c12-")
                 try:
                     pth = os.path.join(tmp, "doc.json")
-                    t.save(pth, meta=user_meta, key_map=km, value_map=vm, **save_kw)
-                    with open(pth, encoding="utf8") as f2:
-                        text = f2.read()
+                    # "optional zipping": with a compression method the file is a zip archive holding the one document (read
+                    # back with the zipfile module, not with the library); without, it is the JSON text itself
+                    import zipfile
+
+                    comp = [False, False, True, zipfile.ZIP_STORED, zipfile.ZIP_DEFLATED, zipfile.ZIP_BZIP2][rng.randrange(6)]
+                    t.save(pth, meta=user_meta, key_map=km, value_map=vm, compression=comp, **save_kw)
+                    res.count(f"writer_path_compression:{comp!r}")
+                    if comp is False:
+                        with open(pth, encoding="utf8") as f2:
+                            text = f2.read()
+                    elif not zipfile.is_zipfile(pth):
+                        bad.append(f"save(path, compression={comp!r}) did not write a zip archive")
+                        with open(pth, encoding="utf8") as f2:
+                            text = f2.read()
+                    else:
+                        with zipfile.ZipFile(pth) as zf:
+                            members = zf.namelist()
+                            if len(members) != 1:
+                                bad.append(f"zip archive written by save() holds {len(members)} members: {members}")
+                            if comp is not True and zf.infolist()[0].compress_type != comp:
+                                bad.append(f"save(compression={comp}) wrote a member with compress_type {zf.infolist()[0].compress_type}")
+                            text = zf.read(members[0]).decode("utf8")
                 finally:
                     shutil.rmtree(tmp, ignore_errors=True)
                 fp.write(text)
